@@ -1,10 +1,12 @@
 mod budget;
 mod crash;
+mod formats;
 mod freelist;
 mod gcommit;
 mod gcommit_api;
 mod joinobs;
 mod plock;
+mod relx;
 mod sched;
 mod sqlrun;
 mod util;
@@ -25,6 +27,8 @@ fn main() {
         "freelist-replay" => freelist::replay(&args),
         "gc-replay" => gcommit::replay(&args),
         "sql-run" => sqlrun::run(&args),
+        "record-run" | "jsonb-run" | "spill-run" => formats::run(argv[1].as_str(), &args),
+        "rel-run" => relx::run(&args),
         "join-obs" => joinobs::run(&args),
         "crash-run" => crash::run(&args),
         "wal-faults" => wal::fault_sweep(&args),
